@@ -95,6 +95,7 @@ func checkC02(c *Check) {
 		return
 	}
 	p := c.P
+	mapContract(c)
 	isDelivered := func(e *Org) bool { return e != nil && e.K != "index" && e.K != "range" }
 
 	// 1-3: callbacks of lookups keyed by the event's session
